@@ -55,6 +55,9 @@ type expander struct {
 	// UninterpretedFuncs are template functions modelled as opaque token maps.
 	visited map[parse.Node]bool
 	tdepth  int
+	// addr: the struct values text/template can take the address of (data handed over by pointer, slice
+	// elements, fields of addressable structs): pointer-receiver methods are found on these only
+	addr map[*interp.Struct]bool
 }
 
 type tvar struct {
@@ -90,7 +93,10 @@ func ExpandData(src *Source, mach func() *interp.Machine, m *Model, given *inter
 		} else {
 			data = data.Copy()
 		}
-		ex := &expander{src: src, m: ma, visited: visited}
+		ex := &expander{src: src, m: ma, visited: visited, addr: map[*interp.Struct]bool{}}
+		if by, _ := data.Aux["byPointer"].(bool); by {
+			ex.addr[data] = true
+		}
 		ex.vars = []tvar{{"$", data}}
 		if err := ex.walk(data, src.Tree.Root); err != nil {
 			return nil, err
@@ -218,6 +224,9 @@ func (ex *expander) walk(dot interp.Value, n parse.Node) error {
 		}
 		for i, e := range elems {
 			inner := len(ex.vars)
+			if st, ok := e.(*interp.Struct); ok {
+				ex.addr[st] = true // slice elements are addressable
+			}
 			switch len(n.Pipe.Decl) {
 			case 1:
 				ex.vars = append(ex.vars, tvar{n.Pipe.Decl[0].Ident[0], e})
@@ -485,7 +494,11 @@ func (ex *expander) field(n parse.Node, recv interp.Value, name string, args []i
 	// text/template: method on the pointer to the value first (values reached through
 	// fields of the data are addressable only when the data is a pointer; moq passes
 	// Data by value, so only value-receiver methods and pointer-held values apply).
-	obj, index, _ := types.LookupFieldOrMethod(t, false, nil, name)
+	addressable := false
+	if st, ok := recv.(*interp.Struct); ok && ex.addr[st] {
+		addressable = true
+	}
+	obj, index, _ := types.LookupFieldOrMethod(t, addressable, nil, name)
 	if obj == nil {
 		// unexported names are never accessible from a template
 		return nil, ex.undecided(n, "template refers to .%s, which is not an exported field or method of %s (execution would fail at run time)", name, types.TypeString(t, nil))
@@ -502,6 +515,9 @@ func (ex *expander) field(n parse.Node, recv interp.Value, name string, args []i
 		}
 		stt := st.Type.Underlying().(*types.Struct)
 		cur = st.Fields[stt.Field(fi).Name()]
+		if es, isStruct := cur.(*interp.Struct); isStruct && ex.addr[st] {
+			ex.addr[es] = true
+		}
 	}
 	switch o := obj.(type) {
 	case *types.Var:
@@ -515,6 +531,9 @@ func (ex *expander) field(n parse.Node, recv interp.Value, name string, args []i
 		v, ok := st.Fields[o.Name()]
 		if !ok {
 			return nil, ex.undecided(n, "field %s is not populated in the abstract environment", name)
+		}
+		if fs, isStruct := v.(*interp.Struct); isStruct && ex.addr[st] {
+			ex.addr[fs] = true // a field of an addressable struct is addressable
 		}
 		return v, nil
 	case *types.Func:
@@ -544,7 +563,7 @@ func structOf(v interp.Value) *interp.Struct {
 func (ex *expander) opaqueMethod(n parse.Node, o *interp.Opaque, name string, args []interp.Value) (interp.Value, error) {
 	full := interp.OpaqueMethodKey(o.Kind, name)
 	if ext, ok := ex.m.Ext[full]; ok {
-		pos := ex.src.Lit.Pos() + token.Pos(1+int(n.Position()))
+		pos := ex.src.PosOf(int(n.Position()))
 		v, err := ext(ex.m, pos, o, args)
 		return v, ex.wrap(n, err)
 	}
